@@ -2017,3 +2017,777 @@ Proof.
            ++ left. discriminate.
         -- cbn [e_fin]. apply (Hsame (if edd then unquote_val v1 else w1)). destruct edd; [exact Hcase|apply Hcase].
 Qed.
+
+(* ------------------------------------------------------------------ *)
+(* the kwargs-named parameter in its canonical shape                   *)
+(* ------------------------------------------------------------------ *)
+
+Definition kwargs_typ (T : fld str) : fld str :=
+  match T with
+  | Missing => Has (L "Optional[dict]")
+  | Has t => if str_eqb t (L "dict") then Has (L "Optional[dict]") else Has t
+  | FNone => FNone
+  end.
+
+Lemma S_kwargs : forall n d T dflt ww,
+    endswith (L "kwargs") n = true -> (exists c r, n = c :: r /\ c <> ch 42) ->
+    typ_fine (kwargs_typ T) -> doc_fine d ->
+    set_name_and_type (Some n) (mkParam (Has d) T dflt) false ww
+    = Ok (n, mkParam (Has d) (kwargs_typ T) (match dflt with None => Some (VStr NoneStr) | x => x end)).
+Proof.
+  intros n d T dflt ww Hk [c [r [En Hc]]] Htyp [Hne [Hnl [He Hopt]]]. unfold set_name_and_type.
+  rewrite Hk. cbn [orb bind fst snd p_typ p_doc p_default].
+  assert (Els : lstrip_chars [ch 42] n = n).
+  { unfold lstrip_chars. apply lstrip_by_id. intros c' Hc'. rewrite En in Hc'. injection Hc' as Hc'. subst c'.
+    cbn [mem_c existsb]. rewrite orb_false_r. apply ascii_eqb_neq. exact Hc. }
+  rewrite Els. fold (kwargs_typ T).
+  destruct (kwargs_typ T) as [| |t]; [|contradiction|]; cbn [typ_fine] in Htyp; try rewrite Htyp.
+  - destruct d as [|c0 dr]; [contradiction|].
+    rewrite (doc_norm_id ww (c0 :: dr) Hnl He). unfold starts_optional in Hopt. rewrite Hopt. destruct dflt; reflexivity.
+  - destruct d as [|c0 dr]; [contradiction|].
+    rewrite (doc_norm_id ww (c0 :: dr) Hnl He). unfold starts_optional in Hopt. rewrite Hopt. destruct dflt; reflexivity.
+Qed.
+
+Lemma entry_kwargs : forall ww edd n d t,
+    mem_c colon n = false -> endswith (L "kwargs") n = true -> (exists c r, n = c :: r /\ c <> ch 42) ->
+    prose_facts d -> typ_facts t -> str_eqb t (L "dict") = false ->
+    entry_spec ww edd n [dline n d nl1; tline n t nl2]
+               (mkParam (Has d) (Has t) (Some (VStr NoneStr))) (mkParam (Has d) (Has t) (Some (VStr NoneStr))).
+Proof.
+  intros ww edd n d t Hc Hk Hstar Hd Ht Hnd.
+  pose proof Ht as [Hbt [Hne [Hstar' Hopt]]].
+  assert (HI : forall T v0, interpolate_defaults (mkParam (Has d) T v0) default_announces false edd
+                            = Ok (mkParam (Has d) T v0)).
+  { intros T v0. apply I_noannounce. apply Hd. }
+  assert (HS2 : forall v0, v0 = None \/ v0 = Some (VStr NoneStr) ->
+             set_name_and_type (Some n) (mkParam (Has d) (Has t) v0) false ww
+             = Ok (n, mkParam (Has d) (Has t) (Some (VStr NoneStr)))).
+  { intros v0 Hv0. rewrite (S_kwargs n d (Has t) v0 ww Hk Hstar).
+    - cbn [kwargs_typ]. rewrite Hnd. destruct Hv0 as [E|E]; subst v0; reflexivity.
+    - cbn [kwargs_typ]. rewrite Hnd. exact Hopt.
+    - apply Hd. }
+  split; [|split].
+  - intros sdoc done rets cur Hcur. cbn [fold_outcome]. unfold step, dline.
+    rewrite step_param_line; [|exact Hc|apply doc_fine_edge; apply Hd|reflexivity].
+    rewrite (flush_for_other n sdoc done rets cur Hcur). cbn [bind fst snd empty_param p_typ p_default].
+    rewrite HI. cbn [bind].
+    rewrite (S_kwargs n d Missing None ww Hk Hstar); [|reflexivity|apply Hd]. cbn [bind fst snd kwargs_typ].
+    unfold tline. rewrite step_type_line; [|exact Hc|exact Hbt|exact Hne|exact Hstar'|reflexivity].
+    rewrite flush_for_same. cbn [bind fst snd p_doc p_default].
+    rewrite HI. cbn [bind]. rewrite HS2; [reflexivity|right; reflexivity].
+  - eexists. split; [apply HI|]. apply HS2. right. reflexivity.
+  - apply HI.
+Qed.
+
+Lemma set_default_doc_kwargs_none : forall n d T v,
+    endswith (L "kwargs") n = true -> (v = VNone \/ v = VStr NoneStr) ->
+    exists p', set_default_doc n (mkParam (Has d) T (Some v)) true = Ok p' /\ p_doc p' = Has d.
+Proof.
+  intros n d T v Hk Hv. unfold set_default_doc. cbn [p_doc p_typ p_default].
+  destruct (contains (L "Defaults") d || contains (L "defaults") d); cbn [negb andb].
+  - eexists. split; reflexivity.
+  - assert (E : (if pyval_eqb v (VStr NoneStr) then VNone else v) = VNone).
+    { destruct Hv as [Hv|Hv]; subst v; reflexivity. }
+    rewrite E. change (pyval_eqb VNone VNone) with true. rewrite Hk. cbn [negb orb].
+    eexists. split; reflexivity.
+Qed.
+
+Lemma param_class_inv_kwargs : forall edd n g,
+    endswith (L "kwargs") n = true -> entry_in_domain g = true -> param_class edd n g = None ->
+    exists d t v, g_doc g = Has d /\ doc_fine d /\ no_announce d = true /\ no_rest_token d = true
+                  /\ g_typ g = Has t /\ type_in_domain t = true /\ str_eqb t (L "dict") = false
+                  /\ g_default g = Some (DV v) /\ (v = VNone \/ v = VStr NoneStr).
+Proof.
+  intros edd n g Hk Hdom Hc. unfold entry_in_domain in Hdom.
+  apply andb_true_iff in Hdom. destruct Hdom as [Hdom Hdd].
+  apply andb_true_iff in Hdom. destruct Hdom as [Hdoc Htyp].
+  unfold param_class in Hc. rewrite Hk in Hc.
+  destruct (fld_str (g_doc g)) as [d|] eqn:Ed.
+  - assert (Edoc : g_doc g = Has d).
+    { destruct (g_doc g) as [| |[|c r]]; try discriminate. cbn [fld_str] in Ed. injection Ed as Ed. subst d. reflexivity. }
+    assert (Hne : d <> []). { destruct (g_doc g) as [| |[|c r]]; try discriminate. cbn [fld_str] in Ed. injection Ed as Ed. subst d. discriminate. }
+    rewrite Edoc in Hdoc.
+    destruct (clean_line d) eqn:Ecl; cbn [negb] in Hc; [|discriminate].
+    destruct (starts_optional d) eqn:Eop; [discriminate|].
+    destruct (no_announce d) eqn:Ena; cbn [negb] in Hc; [|discriminate].
+    destruct (g_typ g) as [| |t] eqn:Et; [discriminate|discriminate|].
+    destruct (type_in_domain_inv t Htyp) as [[_ [Htne _]] _].
+    destruct t as [|c r]; [contradiction|]. cbn [fld_str] in Hc.
+    destruct (g_default g) as [[v|e|rr]|]; try discriminate.
+    destruct (pyval_eqb v VNone || pyval_eqb v (VStr NoneStr)) eqn:Ev; cbn [andb] in Hc; [|discriminate].
+    destruct (str_eqb (c :: r) (L "dict")) eqn:Edict; cbn [negb] in Hc; [discriminate|].
+    exists d, (c :: r), v. split; [exact Edoc|]. split; [apply clean_line_facts; assumption|].
+    split; [exact Ena|]. split; [exact Hdoc|]. split; [reflexivity|]. split; [exact Htyp|].
+    split; [exact Edict|]. split; [reflexivity|].
+    apply orb_true_iff in Ev. destruct Ev as [Ev|Ev]; apply pyval_eqb_eq in Ev; [left|right]; exact Ev.
+  - destruct (fld_str (g_typ g)); discriminate.
+Qed.
+
+(* every parameter of the guard is an entry *)
+Theorem param_entry_all : forall ww edd n g,
+    is_ident n = true -> str_eqb n (L "return_type") = false ->
+    entry_in_domain g = true -> param_class edd n g = None ->
+    exists e, e_name e = n /\ entry_ok ww edd e
+              /\ (exists txt, rest_param_text n g = Ok txt /\ txt ++ nl2 = concat (map blk (e_blocks e)))
+              /\ same_entry edd n g (gparam_of_param (e_fin e)) = true.
+Proof.
+  intros ww edd n g Hid Hrt Hdom Hc.
+  destruct (endswith (L "kwargs") n) eqn:Hk; [|apply param_entry; assumption].
+  destruct (param_class_inv_kwargs edd n g Hk Hdom Hc) as
+      [d [t [v [Ed [Hdf [Hna [Hdtok [Et [Htd [Hnd [Edf Hv]]]]]]]]]]].
+  destruct (type_in_domain_inv t Htd) as [Htf [Htnl [Httok _]]].
+  assert (Hbasic : name_basic n /\ mem_c nl n = false).
+  { unfold is_ident in Hid. destruct n as [|c r]; [discriminate|].
+    apply andb_true_iff in Hid. destruct Hid as [Hs Hall]. split; [split|].
+    - apply (id_chars_exclude colon); [reflexivity|exact Hall].
+    - exists c, r. split; [reflexivity|]. intros E. subst c. discriminate.
+    - apply (id_chars_exclude nl); [reflexivity|exact Hall]. }
+  destruct Hbasic as [[Hcolon Hstar] Hnnl].
+  assert (Hprose : prose_facts d) by (split; assumption).
+  assert (Hdne : d <> []) by apply Hdf.
+  assert (Hdnl : mem_c nl d = false) by apply Hdf.
+  destruct g as [gd gt gdf]. cbn [g_doc g_typ g_default] in *. subst gd gt gdf.
+  exists (mkE n [dblock n d nl1; tblock n t nl2]
+              (mkParam (Has d) (Has t) (Some (VStr NoneStr))) (mkParam (Has d) (Has t) (Some (VStr NoneStr)))).
+  split; [reflexivity|]. split; [|split].
+  - split; [split; assumption|]. split; [apply entry_kwargs; assumption|]. split; [|discriminate].
+    intros b [Hb|[Hb|[]]]; subst b; [apply dblock_good|apply tblock_good]; try assumption; reflexivity.
+  - destruct (set_default_doc_kwargs_none n d (Has t) v Hk Hv) as [p' [Hw Hp']].
+    apply (rest_param_text_of_lines n _ (Some d) (Some t)).
+    + apply (rest_param_lines_eq n (Has d) (Has t) (Some (DV v)) (Some d) (Some t) Hrt eq_refl).
+      * intros t' E. injection E as E. subst t'. apply Htf.
+      * exists d, (mkParam (Has d) (Has t) (Some v)), p'.
+        split; [reflexivity|]. split; [exact Hdne|]. split; [reflexivity|]. split; [exact Hw|exact Hp'].
+    + exact Hnnl.
+    + intros D E. injection E as E. subst D. exact Hdnl.
+    + intros t' E. injection E as E. subst t'. exact Htnl.
+    + left. discriminate.
+  - cbn [e_fin]. apply same_entry_intro.
+    + unfold same_typ. cbn [g_typ gparam_of_param p_typ]. apply opt_eqb_str_refl.
+    + assert (Hsp : same_prose (mkG (Has d) (Has t) (Some (DV v)))
+                               (gparam_of_param (mkParam (Has d) (Has t) (Some (VStr NoneStr)))) = true).
+      { unfold same_prose. cbn [g_doc gparam_of_param p_doc]. apply opt_eqb_str_refl. }
+      destruct edd; [apply same_prose_dflt_of_same|]; exact Hsp.
+    + cbn [g_default gparam_of_param p_default option_map same_default_ir dval_eqb none_like_d].
+      destruct Hv as [Hv|Hv]; subst v; reflexivity.
+Qed.
+
+(* ------------------------------------------------------------------ *)
+(* all parameters: induction carrying the running pair                 *)
+(* ------------------------------------------------------------------ *)
+
+Lemma fold_outcome_app : forall {A B} (f : A -> B -> outcome A) l1 l2 a,
+    fold_outcome f (l1 ++ l2) a = (do a' <- fold_outcome f l1 a; fold_outcome f l2 a').
+Proof.
+  intros A B f l1. induction l1 as [|x l1 IH]; intros l2 a; [reflexivity|].
+  cbn [app fold_outcome]. destruct (f a x) as [a'|e]; [|reflexivity]. cbn [bind]. apply IH.
+Qed.
+
+Fixpoint run_spec (es : list entry) (done : list (str * param)) (cur : option str * param)
+  : list (str * param) * (option str * param) :=
+  match es with
+  | [] => (done, cur)
+  | e :: r => run_spec r (flushed done cur) (Some (e_name e), e_mid e)
+  end.
+
+Definition entry_lines (e : entry) : list (bool * str) := map as_line (e_blocks e).
+Definition all_lines (es : list entry) : list (bool * str) := concat (map entry_lines es).
+
+Fixpoint names_ok (cur : option str * param) (es : list entry) : Prop :=
+  match es with
+  | [] => True
+  | e :: r => cur_ok cur (e_name e) /\ names_ok (Some (e_name e), e_mid e) r
+  end.
+
+Lemma run_entries : forall ww edd es sdoc done rets cur,
+    (forall e, In e es -> entry_ok ww edd e) -> names_ok cur es ->
+    fold_outcome (step ww edd) (all_lines es) (mkRS sdoc done rets cur)
+    = Ok (mkRS sdoc (fst (run_spec es done cur)) rets (snd (run_spec es done cur))).
+Proof.
+  intros ww edd es. induction es as [|e es IH]; intros sdoc done rets cur Hok Hnames.
+  - destruct cur. reflexivity.
+  - unfold all_lines. cbn [map concat]. rewrite fold_outcome_app.
+    destruct (Hok e (or_introl eq_refl)) as [_ [[Hrun _] _]].
+    destruct Hnames as [Hcur Hnames].
+    unfold entry_lines at 1. rewrite (Hrun sdoc done rets cur Hcur). cbn [bind run_spec].
+    apply IH; [|exact Hnames]. intros e' He'. apply Hok. right. exact He'.
+Qed.
+
+Lemma od_set_fresh : forall {A} k (v : A) d, ~ In k (map fst d) -> od_set k v d = d ++ [(k, v)].
+Proof.
+  intros A k v d. induction d as [|[k' v'] d IH]; intros H; [reflexivity|].
+  cbn [od_set map fst In] in *.
+  assert (E : str_eqb k k' = false).
+  { apply str_eqb_neq. intros E. apply H. left. symmetry. exact E. }
+  rewrite E. cbn [app]. f_equal. apply IH. intros Hin. apply H. right. exact Hin.
+Qed.
+
+Lemma names_ok_of_nodup : forall ww edd es m pm,
+    (forall e, In e es -> entry_ok ww edd e) ->
+    (exists c r, m = c :: r /\ c <> ch 42) ->
+    NoDup (m :: map e_name es) -> names_ok (Some m, pm) es.
+Proof.
+  intros ww edd es. induction es as [|e es IH]; intros m pm Hok Hm Hnd; [exact I|].
+  cbn [names_ok]. split.
+  - unfold cur_ok. cbn [fst]. split; [|exact Hm].
+    intros E. inversion Hnd as [|x l Hnotin Hnd']. apply Hnotin. left. symmetry. exact E.
+  - apply IH.
+    + intros e' He'. apply Hok. right. exact He'.
+    + destruct (Hok e (or_introl eq_refl)) as [[_ Hb] _]. exact Hb.
+    + inversion Hnd as [|x l Hnotin Hnd']. exact Hnd'.
+Qed.
+
+(* after the last entry the final flush stores the running pair: all entries, in order *)
+Lemma final_params : forall es done m pm,
+    NoDup (map fst done ++ m :: map e_name es) ->
+    exists nl pl, snd (run_spec es done (Some m, pm)) = (Some nl, pl)
+      /\ od_set nl pl (fst (run_spec es done (Some m, pm)))
+         = done ++ (m, pm) :: map (fun e => (e_name e, e_mid e)) es
+      /\ ((es = [] /\ nl = m /\ pl = pm)
+          \/ exists e, In e es /\ nl = e_name e /\ pl = e_mid e).
+Proof.
+  induction es as [|e es IH]; intros done m pm Hnd.
+  - exists m, pm. cbn [run_spec fst snd map]. split; [reflexivity|]. split.
+    + apply od_set_fresh. intros Hin. apply NoDup_remove_2 in Hnd. apply Hnd.
+      apply in_or_app. left. exact Hin.
+    + left. repeat split.
+  - cbn [run_spec]. unfold flushed. cbn [fst snd].
+    assert (Ef : od_set m pm done = done ++ [(m, pm)]).
+    { apply od_set_fresh. intros Hin. apply NoDup_remove_2 in Hnd. apply Hnd. apply in_or_app. left. exact Hin. }
+    rewrite Ef.
+    destruct (IH (done ++ [(m, pm)]) (e_name e) (e_mid e)) as [nl [pl [H1 [H2 H3]]]].
+    { rewrite map_app. cbn [map fst]. rewrite <- app_assoc. exact Hnd. }
+    exists nl, pl. split; [exact H1|]. split.
+    + rewrite H2. rewrite <- app_assoc. reflexivity.
+    + right. destruct H3 as [[E1 [E2 E3]]|[e' [He' [E2 E3]]]].
+      * exists e. split; [left; reflexivity|]. split; assumption.
+      * exists e'. split; [right; exact He'|]. split; assumption.
+Qed.
+
+Lemma nodup_str_NoDup : forall l, nodup_str l = true -> NoDup l.
+Proof.
+  induction l as [|x l IH]; intros H; [constructor|].
+  cbn [nodup_str] in H. apply andb_true_iff in H. destruct H as [Hx Hl]. constructor; [|apply IH; exact Hl].
+  intros Hin. apply negb_true_iff in Hx.
+  assert (E : existsb (str_eqb x) l = true).
+  { apply existsb_exists. exists x. split; [exact Hin|apply str_eqb_refl]. }
+  congruence.
+Qed.
+
+(* ---- the parameters of an IR as entries ---- *)
+
+Inductive entries_of (ww edd : bool) : list (str * gparam) -> list entry -> Prop :=
+| eo_nil : entries_of ww edd [] []
+| eo_cons : forall n g ps e es,
+    e_name e = n -> entry_ok ww edd e ->
+    (exists txt, rest_param_text n g = Ok txt /\ txt ++ nl2 = concat (map blk (e_blocks e))) ->
+    same_entry edd n g (gparam_of_param (e_fin e)) = true ->
+    entries_of ww edd ps es -> entries_of ww edd ((n, g) :: ps) (e :: es).
+
+Definition param_in_domain (kv : str * gparam) : bool :=
+  is_ident (fst kv) && negb (str_eqb (fst kv) (L "return_type")) && entry_in_domain (snd kv).
+
+Lemma entries_exist : forall ww edd ps,
+    forallb param_in_domain ps = true ->
+    first_class (fun kv => param_class edd (fst kv) (snd kv)) ps = None ->
+    exists es, entries_of ww edd ps es.
+Proof.
+  intros ww edd ps. induction ps as [|[n g] ps IH]; intros Hdom Hc.
+  - exists []. constructor.
+  - cbn [forallb] in Hdom. apply andb_true_iff in Hdom. destruct Hdom as [Hd Hdom].
+    unfold param_in_domain in Hd. cbn [fst snd] in Hd.
+    apply andb_true_iff in Hd. destruct Hd as [Hd Hed]. apply andb_true_iff in Hd. destruct Hd as [Hid Hrt].
+    apply negb_true_iff in Hrt.
+    cbn [first_class fst snd] in Hc.
+    destruct (param_class edd n g) as [k|] eqn:Ek; [discriminate|].
+    destruct (IH Hdom Hc) as [es Hes].
+    destruct (param_entry_all ww edd n g Hid Hrt Hed Ek) as [e [En [Hok [Htxt Hsame]]]].
+    exists (e :: es). constructor; assumption.
+Qed.
+
+Lemma entries_names : forall ww edd ps es, entries_of ww edd ps es -> map e_name es = map fst ps.
+Proof. intros ww edd ps es H. induction H; [reflexivity|]. cbn [map fst]. rewrite IHentries_of. f_equal. assumption. Qed.
+
+Lemma entries_ok : forall ww edd ps es, entries_of ww edd ps es -> forall e, In e es -> entry_ok ww edd e.
+Proof.
+  intros ww edd ps es H. induction H; intros e' He'; [destruct He'|].
+  destruct He' as [E|He']; [subst e'; assumption|apply IHentries_of; exact He'].
+Qed.
+
+Definition all_blocks (es : list entry) : list (str * str) := concat (map e_blocks es).
+
+Lemma all_lines_blocks : forall es, all_lines es = map as_line (all_blocks es).
+Proof.
+  induction es as [|e es IH]; [reflexivity|].
+  unfold all_lines, all_blocks in *. cbn [map concat]. rewrite map_app, IH. reflexivity.
+Qed.
+
+Lemma entries_text : forall ww edd ps es, entries_of ww edd ps es ->
+    exists txts, map_outcome (fun kv => rest_param_text (fst kv) (snd kv)) ps = Ok txts
+                 /\ concat (map (fun t => t ++ nl2) txts) = concat (map blk (all_blocks es))
+                 /\ List.length txts = List.length ps.
+Proof.
+  intros ww edd ps es H. induction H as [|n g ps e es En Hok [txt [Ht Htxt]] Hsame Hes [txts [IH1 [IH2 IH3]]]].
+  - exists []. repeat split.
+  - exists (txt :: txts). cbn [map_outcome fst snd]. rewrite Ht. cbn [bind]. rewrite IH1. cbn [bind].
+    split; [reflexivity|]. split.
+    + unfold all_blocks. cbn [map concat]. rewrite map_app, concat_app, Htxt.
+      unfold all_blocks in IH2. rewrite IH2. reflexivity.
+    + cbn [List.length]. rewrite IH3. reflexivity.
+Qed.
+
+Lemma entries_same : forall ww edd ps es, entries_of ww edd ps es ->
+    same_params edd ps (map (fun e => (e_name e, gparam_of_param (e_fin e))) es) = true.
+Proof.
+  intros ww edd ps es H. induction H; [reflexivity|].
+  cbn [map same_params]. rewrite H, str_eqb_refl, H2, IHentries_of. reflexivity.
+Qed.
+
+Lemma entries_blocks_good : forall ww edd ps es, entries_of ww edd ps es ->
+    forall b, In b (all_blocks es) -> block_good b.
+Proof.
+  intros ww edd ps es H b Hb. unfold all_blocks in Hb. apply in_concat in Hb.
+  destruct Hb as [bl [Hbl Hb]]. apply in_map_iff in Hbl. destruct Hbl as [e [Ee He]]. subst bl.
+  destruct (entries_ok ww edd ps es H e He) as [_ [_ [Hg _]]]. apply Hg. exact Hb.
+Qed.
+
+(* ------------------------------------------------------------------ *)
+(* the return entry                                                    *)
+(* ------------------------------------------------------------------ *)
+
+Definition rblock (d ws : str) : str * str := (L ":return", L "s" ++ colon :: sp :: d ++ ws).
+Definition rtblock (t ws : str) : str * str := (L ":rtype", colon :: sp :: (L "```" ++ t ++ L "```") ++ ws).
+
+Lemma rblock_line : forall d ws, as_line (rblock d ws) = (true, ret_line (L "returns") d ws).
+Proof. reflexivity. Qed.
+
+Lemma rtblock_line : forall t ws, as_line (rtblock t ws) = (true, ret_line (L "rtype") (L "```" ++ t ++ L "```") ws).
+Proof. reflexivity. Qed.
+
+Lemma rblock_good : forall d ws, no_rest_token d = true -> forallb isspace ws = true -> block_good (rblock d ws).
+Proof.
+  intros d ws Hd Hws. split.
+  - right. right. right. right. right. left. reflexivity.
+  - cbn [snd rblock]. apply no_rest_token_app_r; [reflexivity| |].
+    + change (colon :: sp :: d ++ ws) with ([colon] ++ sp :: (d ++ ws)).
+      apply no_rest_token_sp; [reflexivity|]. apply no_rest_token_ws; assumption.
+    + intros c Hc. injection Hc as Hc. subst c. reflexivity.
+Qed.
+
+Lemma rtblock_good : forall t ws, no_rest_token t = true -> forallb isspace ws = true -> block_good (rtblock t ws).
+Proof.
+  intros t ws Ht Hws. split.
+  - right. right. right. right. right. right. left. reflexivity.
+  - cbn [snd rtblock]. change (colon :: sp :: (L "```" ++ t ++ L "```") ++ ws)
+      with ([colon] ++ sp :: ((L "```" ++ t ++ L "```") ++ ws)).
+    apply no_rest_token_sp; [reflexivity|]. apply no_rest_token_ws; [|exact Hws].
+    apply bt_wrapped_token_free. exact Ht.
+Qed.
+
+Lemma ret_doc_line_text : forall d ws, (L ":" ++ L "returns" ++ L ": " ++ d) ++ ws = blk (rblock d ws).
+Proof. intros d ws. unfold blk, rblock. cbn [fst snd]. rewrite <- !app_assoc. reflexivity. Qed.
+
+Lemma ret_typ_line_text : forall t ws, (L ":" ++ L "rtype" ++ L ": ```" ++ t ++ L "```") ++ ws = blk (rtblock t ws).
+Proof. intros t ws. unfold blk, rtblock. cbn [fst snd]. rewrite <- !app_assoc. reflexivity. Qed.
+
+Definition ret_spec (edd : bool) (g : gparam) (rblocks : list (str * str)) (rp : param) : Prop :=
+  (forall ww st, rs_returns st = None ->
+      fold_outcome (step ww edd) (map as_line rblocks) st
+      = Ok (mkRS (rs_doc st) (rs_params st) (Some rp) (rs_cur st)))
+  /\ interpolate_defaults rp default_announces false edd = Ok rp
+  /\ (exists txt, rest_param_text (L "return_type") g = Ok txt /\ txt ++ nl1 = concat (map blk rblocks))
+  /\ (forall b, In b rblocks -> block_good b)
+  /\ same_entry edd (L "return_type") g (gparam_of_param rp) = true.
+
+Lemma return_entry : forall edd g,
+    entry_in_domain g = true -> return_class g = None ->
+    exists rblocks rp, ret_spec edd g rblocks rp.
+Proof.
+  intros edd g Hdom Hc. unfold entry_in_domain in Hdom.
+  apply andb_true_iff in Hdom. destruct Hdom as [Hdom Hdd].
+  apply andb_true_iff in Hdom. destruct Hdom as [Hdoc Htyp].
+  destruct g as [gd gt gdf]. cbn [g_doc g_typ g_default] in *.
+  unfold return_class in Hc. cbn [g_doc g_typ g_default] in Hc.
+  (* the type *)
+  assert (Ht : exists typ, gt = fld_of_opt typ /\ fld_str gt = typ
+                           /\ forall t, typ = Some t -> type_in_domain t = true).
+  { destruct gt as [| |t]; [exists None; repeat split; intros t E; discriminate|discriminate|].
+    exists (Some t). destruct (type_in_domain_inv t Htyp) as [[_ [Hne _]] _].
+    destruct t as [|c r]; [contradiction|]. repeat split. intros t' E. injection E as E. subst t'. exact Htyp. }
+  destruct Ht as [typ [Etyp [Efs Htd]]]. rewrite Efs in Hc. subst gt.
+  assert (Hdf : gdf = None).
+  { destruct (fld_str gd); destruct typ; destruct gdf; try discriminate; reflexivity. }
+  subst gdf.
+  (* the prose *)
+  assert (Hd : exists odoc, fld_str gd = odoc
+                 /\ (forall d, odoc = Some d -> gd = Has d /\ d <> [] /\ edge_ok d /\ mem_c nl d = false
+                                                /\ no_announce d = true /\ no_rest_token d = true)
+                 /\ (odoc = None -> truthy_fld gd = false)).
+  { exists (fld_str gd). split; [reflexivity|]. split.
+    - intros d E. rewrite E in Hc.
+      assert (Egd : gd = Has d /\ d <> []).
+      { destruct gd as [| |[|c r]]; try discriminate. cbn [fld_str] in E. injection E as E. subst d.
+        split; [reflexivity|discriminate]. }
+      destruct Egd as [Egd Hne]. subst gd.
+      destruct (clean_line d) eqn:Ecl; cbn [negb] in Hc; [|destruct typ; discriminate].
+      destruct (no_announce d) eqn:Ena; cbn [negb] in Hc; [|destruct typ; discriminate].
+      unfold clean_line in Ecl. apply andb_true_iff in Ecl. destruct Ecl as [Es En].
+      apply str_eqb_eq in Es. apply negb_true_iff in En.
+      split; [reflexivity|]. split; [exact Hne|]. split; [apply strip_fix_edge_ok; assumption|].
+      split; [exact En|]. split; [reflexivity|exact Hdoc].
+    - intros E. destruct gd as [| |[|c r]]; try reflexivity. discriminate. }
+  destruct Hd as [odoc [Eod [Hdfacts Hnod]]]. rewrite Eod in Hc.
+  assert (Hsome : odoc <> None \/ typ <> None).
+  { destruct odoc; [left; discriminate|]. destruct typ; [right; discriminate|discriminate]. }
+  (* the emitted lines *)
+  assert (Hlines : rest_param_lines (L "return_type") (mkG gd (fld_of_opt typ) None)
+            = Ok ((match odoc with Some d => [L ":" ++ L "returns" ++ L ": " ++ d] | None => [] end)
+                  ++ (match typ with Some t => [L ":" ++ L "rtype" ++ L ": ```" ++ t ++ L "```"] | None => [] end))).
+  { unfold rest_param_lines. cbv zeta. change (str_eqb (L "return_type") (L "return_type")) with true.
+    cbn [g_doc g_typ].
+    assert (Etl : (match fld_of_opt typ with
+                   | Has (c :: t) => [L ":" ++ L "rtype" ++ L ": ```" ++ (c :: t) ++ L "```"]
+                   | _ => [] end)
+                  = match typ with Some t => [L ":" ++ L "rtype" ++ L ": ```" ++ t ++ L "```"] | None => [] end).
+    { destruct typ as [t|]; [|reflexivity]. cbn [fld_of_opt].
+      destruct (type_in_domain_inv t (Htd t eq_refl)) as [[_ [Hne _]] _].
+      destruct t as [|c t]; [contradiction|reflexivity]. }
+    destruct odoc as [d|].
+    - destruct (Hdfacts d eq_refl) as [Egd [Hne _]]. subst gd.
+      assert (Etr : truthy_fld (Has d) = true) by (destruct d; [contradiction|reflexivity]).
+      rewrite Etr. cbn [param_of_gparam g_default g_doc g_typ].
+      rewrite set_default_doc_no_default; [|reflexivity|discriminate]. cbn [bind p_doc].
+      do 2 f_equal. exact Etl.
+    - rewrite (Hnod eq_refl). cbn [bind]. do 2 f_equal. exact Etl. }
+  (* the two optional blocks and the resulting dict *)
+  exists ((match odoc with Some d => [rblock d nl1] | None => [] end)
+          ++ (match typ with Some t => [rtblock t nl1] | None => [] end)),
+         (mkParam (fld_of_opt odoc) (fld_of_opt typ) None).
+  split; [|split; [|split; [|split]]].
+  - intros ww st Hst. destruct st as [sdoc ps rets cur]. cbn [rs_returns rs_doc rs_params rs_cur] in *. subst rets.
+    destruct odoc as [d|]; destruct typ as [t|]; cbn [app map fold_outcome fld_of_opt].
+    + destruct (Hdfacts d eq_refl) as [_ [_ [He [_ [Hna _]]]]].
+      destruct (type_in_domain_inv t (Htd t eq_refl)) as [[Hbt [_ [Hstar _]]] _].
+      rewrite rblock_line. unfold step. rewrite step_returns_line; [|exact He|exact Hna|reflexivity]. cbn [bind].
+      rewrite rtblock_line. rewrite step_rtype_line; [|exact Hbt|exact Hstar|reflexivity]. reflexivity.
+    + destruct (Hdfacts d eq_refl) as [_ [_ [He [_ [Hna _]]]]].
+      rewrite rblock_line. unfold step. rewrite step_returns_line; [|exact He|exact Hna|reflexivity]. reflexivity.
+    + destruct (type_in_domain_inv t (Htd t eq_refl)) as [[Hbt [_ [Hstar _]]] _].
+      rewrite rtblock_line. unfold step. rewrite step_rtype_line; [|exact Hbt|exact Hstar|reflexivity]. reflexivity.
+    + exfalso. destruct Hsome as [H|H]; apply H; reflexivity.
+  - destruct odoc as [d|]; cbn [fld_of_opt]; [|apply I_nodoc].
+    apply I_noannounce. apply (Hdfacts d eq_refl).
+  - unfold rest_param_text. rewrite Hlines. cbn [bind].
+    destruct odoc as [d|]; destruct typ as [t|]; cbn [app map join concat].
+    + destruct (Hdfacts d eq_refl) as [_ [_ [_ [Hnl _]]]].
+      destruct (type_in_domain_inv t (Htd t eq_refl)) as [_ [Htnl _]].
+      assert (H1 : mem_c nl (L ":" ++ L "returns" ++ L ": " ++ d) = false) by (rewrite !mem_c_app, Hnl; reflexivity).
+      assert (H2 : mem_c nl (L ":" ++ L "rtype" ++ L ": ```" ++ t ++ L "```") = false) by (rewrite !mem_c_app, Htnl; reflexivity).
+      rewrite (iabf_colon_line _ H1), (iabf_colon_line _ H2).
+      eexists. split; [reflexivity|]. rewrite app_nil_r.
+      rewrite <- ret_doc_line_text, <- ret_typ_line_text. unfold nl1.
+      change (?a :: ?x) with ([a] ++ x) at 1. rewrite <- !app_assoc. reflexivity.
+    + destruct (Hdfacts d eq_refl) as [_ [_ [_ [Hnl _]]]].
+      assert (H1 : mem_c nl (L ":" ++ L "returns" ++ L ": " ++ d) = false) by (rewrite !mem_c_app, Hnl; reflexivity).
+      rewrite (iabf_colon_line _ H1).
+      eexists. split; [reflexivity|]. rewrite app_nil_r. rewrite <- ret_doc_line_text. reflexivity.
+    + destruct (type_in_domain_inv t (Htd t eq_refl)) as [_ [Htnl _]].
+      assert (H2 : mem_c nl (L ":" ++ L "rtype" ++ L ": ```" ++ t ++ L "```") = false) by (rewrite !mem_c_app, Htnl; reflexivity).
+      rewrite (iabf_colon_line _ H2).
+      eexists. split; [reflexivity|]. rewrite app_nil_r. rewrite <- ret_typ_line_text. reflexivity.
+    + exfalso. destruct Hsome as [H|H]; apply H; reflexivity.
+  - intros b Hb. apply in_app_or in Hb. destruct Hb as [Hb|Hb].
+    + destruct odoc as [d|]; [|destruct Hb]. destruct Hb as [Hb|[]]. subst b.
+      apply rblock_good; [apply (Hdfacts d eq_refl)|reflexivity].
+    + destruct typ as [t|]; [|destruct Hb]. destruct Hb as [Hb|[]]. subst b.
+      destruct (type_in_domain_inv t (Htd t eq_refl)) as [_ [_ [Httok _]]].
+      apply rtblock_good; [exact Httok|reflexivity].
+  - apply same_entry_intro.
+    + unfold same_typ. cbn [g_typ gparam_of_param p_typ]. apply opt_eqb_str_refl.
+    + assert (Hsp : same_prose (mkG gd (fld_of_opt typ) None)
+                               (gparam_of_param (mkParam (fld_of_opt odoc) (fld_of_opt typ) None)) = true).
+      { unfold same_prose. cbn [g_doc gparam_of_param p_doc]. rewrite Eod.
+        destruct odoc as [d|]; cbn [fld_of_opt].
+        - destruct (Hdfacts d eq_refl) as [_ [Hne _]]. destruct d; [contradiction|]. cbn [fld_str opt_eqb]. apply str_eqb_refl.
+        - reflexivity. }
+      destruct edd; [apply same_prose_dflt_of_same|]; exact Hsp.
+    + reflexivity.
+Qed.
+
+(* ------------------------------------------------------------------ *)
+(* C01, ReST: emit, recognise, parse, compare                          *)
+(* ------------------------------------------------------------------ *)
+
+Lemma join_sep_concat : forall sep (l : list str), l <> [] ->
+    join sep l ++ sep = concat (map (fun x => x ++ sep) l).
+Proof.
+  intros sep l. induction l as [|x l IH]; intros Hne; [contradiction|].
+  destruct l as [|y l].
+  - cbn [join map concat]. rewrite app_nil_r. reflexivity.
+  - change (join sep (x :: y :: l)) with (x ++ sep ++ join sep (y :: l)).
+    rewrite <- !app_assoc. rewrite IH by discriminate. cbn [map concat]. rewrite <- !app_assoc. reflexivity.
+Qed.
+
+Lemma map_params_entries : forall edd es,
+    (forall e, In e es -> interpolate_defaults (e_mid e) default_announces false edd = Ok (e_fin e)) ->
+    map_params (fun p => interpolate_defaults p default_announces false edd)
+               (map (fun e => (e_name e, e_mid e)) es)
+    = Ok (map (fun e => (e_name e, e_fin e)) es).
+Proof.
+  intros edd es. induction es as [|e es IH]; intros H; [reflexivity|].
+  unfold map_params in *. cbn [map map_outcome fst snd].
+  rewrite (H e (or_introl eq_refl)). cbn [bind]. rewrite IH; [reflexivity|].
+  intros e' He'. apply H. right. exact He'.
+Qed.
+
+Lemma docpart_facts : forall sdoc, no_rest_token sdoc = true -> strip sdoc = sdoc ->
+    no_rest_token ([nl] ++ sdoc ++ nl2) = true /\ strip ([nl] ++ sdoc ++ nl2) = sdoc.
+Proof.
+  intros sdoc Htok Hs. split.
+  - apply no_rest_token_app_l; [reflexivity| |].
+    + apply no_rest_token_ws; [exact Htok|reflexivity].
+    + intros c Hc. injection Hc as Hc. subst c. split; [reflexivity|discriminate].
+  - destruct sdoc as [|c r]; [reflexivity|].
+    apply strip_pad; [reflexivity|reflexivity|]. apply strip_fix_edge_ok; [discriminate|exact Hs].
+Qed.
+
+Lemma rest_scan_tokens_eq : rest_scan_tokens = Extracted.rest_tokens.
+Proof. reflexivity. Qed.
+
+Lemma parse_dot_rest : forall ng (text : str) it prop edd,
+    text <> [] -> detect_style (Some text) = Rest ->
+    parse_dot_docstring ng text it prop edd = parse_rest text it true prop edd.
+Proof.
+  intros ng text it prop edd Hne Hs. unfold parse_dot_docstring, parse_docstring.
+  destruct text as [|c r]; [contradiction|]. rewrite Hs. reflexivity.
+Qed.
+
+Theorem C01_rest_partial_lemma : forall edd i, guard_C01_rest edd i = true -> C01_rest_at edd i.
+Proof.
+  intros edd i Hg. unfold guard_C01_rest in Hg. apply andb_true_iff in Hg. destruct Hg as [Hdom Hcls].
+  destruct (finding_class_C01_rest false edd i) as [k|] eqn:Hc; [discriminate|]. clear Hcls.
+  (* the domain *)
+  unfold in_domain_C01 in Hdom.
+  apply andb_true_iff in Hdom. destruct Hdom as [Hdom Hret_dom].
+  apply andb_true_iff in Hdom. destruct Hdom as [Hdom Hnodup].
+  apply andb_true_iff in Hdom. destruct Hdom as [Hsum Hparams].
+  destruct i as [iname itype idoc ps irets iint]. cbn [ir_doc ir_params ir_returns] in *.
+  destruct idoc as [| |sdoc]; try discriminate.
+  (* the classifier *)
+  unfold finding_class_C01_rest in Hc. cbn [andb ir_params ir_returns ir_doc] in Hc.
+  destruct ps as [|p0 ps0]; [destruct (fld_opt irets); discriminate|].
+  set (ps := p0 :: ps0) in *.
+  assert (Hc' : str_eqb (strip sdoc) sdoc = true
+                /\ first_class (fun kv => param_class edd (fst kv) (snd kv)) ps = None
+                /\ match fld_opt irets with Some g => return_class g | None => None end = None).
+  { destruct (str_eqb (strip sdoc) sdoc); cbn [negb] in Hc; [|discriminate].
+    destruct (first_class (fun kv => param_class edd (fst kv) (snd kv)) ps); [discriminate|].
+    repeat split. exact Hc. }
+  clear Hc. destruct Hc' as [Hstrip [Hfirst Hretc]]. apply str_eqb_eq in Hstrip.
+  (* the parameters as entries *)
+  destruct (entries_exist true edd ps Hparams Hfirst) as [es Hes].
+  pose proof (entries_names _ _ _ _ Hes) as Hnames.
+  pose proof (entries_ok _ _ _ _ Hes) as Hoks.
+  destruct (entries_text _ _ _ _ Hes) as [txts [Htxts [Htext Hlen]]].
+  assert (Hes_ne : exists e1 es1, es = e1 :: es1).
+  { inversion Hes; subst. eexists. eexists. reflexivity. }
+  destruct Hes_ne as [e1 [es1 Ees]].
+  assert (Htxts_ne : txts <> []).
+  { intros E. subst txts. unfold ps in Hlen. discriminate. }
+  (* the return entry *)
+  assert (Hret : exists rblocks orp,
+             (forall ww st, rs_returns st = None ->
+                 fold_outcome (step ww edd) (map as_line rblocks) st
+                 = Ok (mkRS (rs_doc st) (rs_params st) orp (rs_cur st)))
+             /\ map_returns (fun p => interpolate_defaults p default_announces false edd) orp = Ok orp
+             /\ (exists rtxt, (match irets with
+                               | Has g => do t <- rest_param_text (L "return_type") g; Ok (nl :: t)
+                               | _ => Ok [] end) = Ok rtxt
+                              /\ [nl] ++ rtxt ++ [nl] = nl2 ++ concat (map blk rblocks))
+             /\ (forall b, In b rblocks -> block_good b)
+             /\ same_returns edd irets (match orp with None => FNone | Some r => Has (gparam_of_param r) end) = true).
+  { destruct irets as [| |g]; cbn [fld_opt] in Hretc.
+    - exists [], None. split; [intros ww st Hst; destruct st; cbn in *; subst; reflexivity|].
+      split; [reflexivity|]. split; [exists []; split; reflexivity|]. split; [intros b []|reflexivity].
+    - exists [], None. split; [intros ww st Hst; destruct st; cbn in *; subst; reflexivity|].
+      split; [reflexivity|]. split; [exists []; split; reflexivity|]. split; [intros b []|reflexivity].
+    - destruct (return_entry edd g Hret_dom Hretc) as [rblocks [rp [H1 [H2 [[rtxt [H3 H3']] [H4 H5]]]]]].
+      exists rblocks, (Some rp). split; [exact H1|]. split; [cbn [map_returns]; rewrite H2; reflexivity|].
+      split; [|split; [exact H4|]].
+      + exists (nl :: rtxt). rewrite H3. split; [reflexivity|]. rewrite <- H3'. unfold nl1, nl2.
+        cbn [app]. reflexivity.
+      + unfold same_returns. cbn [fld_opt opt_eqb]. exact H5. }
+  destruct Hret as [rblocks [orp [Hrrun [Hrpost [[rtxt [Hrtxt Hrtext]] [Hrgood Hrsame]]]]]].
+  (* the text *)
+  set (docpart := [nl] ++ sdoc ++ nl2).
+  set (blocks := all_blocks es ++ rblocks).
+  assert (Htext_eq : rest_text_of (mkIR iname itype (Has sdoc) ps irets iint)
+                     = Ok (docpart ++ concat (map blk blocks))).
+  { unfold rest_text_of. cbn [ir_doc ir_params ir_returns bind]. rewrite Htxts. cbn [bind].
+    rewrite Hrtxt. cbn [bind]. f_equal. unfold docpart, blocks.
+    rewrite map_app, concat_app, <- Htext, <- (join_sep_concat nl2 txts Htxts_ne).
+    unfold nl2 in *. rewrite <- !app_assoc. f_equal. f_equal. f_equal. f_equal.
+    exact Hrtext. }
+  destruct (docpart_facts sdoc Hsum Hstrip) as [Hdoctok Hdocstrip]. fold docpart in Hdoctok, Hdocstrip.
+  assert (Hblocks_good : forall b, In b blocks -> block_good b).
+  { intros b Hb. unfold blocks in Hb. apply in_app_or in Hb. destruct Hb as [Hb|Hb].
+    - apply (entries_blocks_good _ _ _ _ Hes b Hb).
+    - apply Hrgood. exact Hb. }
+  assert (Hblocks_ne : exists b0, In b0 blocks).
+  { destruct (Hoks e1) as [_ [_ [_ Hne]]]; [rewrite Ees; left; reflexivity|].
+    destruct (e_blocks e1) as [|b0 bl] eqn:Eb; [contradiction|].
+    exists b0. unfold blocks, all_blocks. rewrite Ees. cbn [map concat]. rewrite Eb.
+    left. reflexivity. }
+  (* the scanner *)
+  assert (Hscan : scan_rest (docpart ++ concat (map blk blocks)) = (false, docpart) :: map as_line blocks).
+  { apply scan_rest_blocks; [exact Hdoctok|exact Hblocks_good|].
+    left. destruct Hblocks_ne as [b0 Hb0]. intros E. rewrite E in Hb0. destruct Hb0. }
+  (* the parse phase *)
+  assert (Hnd : NoDup (map e_name es)).
+  { rewrite Hnames. apply nodup_str_NoDup. exact Hnodup. }
+  assert (Hphase : parse_phase_rest ((false, docpart) :: map as_line blocks) false true true edd
+                   = Ok (mkRS sdoc (map (fun e => (e_name e, e_mid e)) es) orp
+                              (snd (run_spec es [] (None, empty_param))))).
+  { unfold parse_phase_rest. cbn [fold_outcome]. unfold parse_rest_line at 1. cbn [init_rstate rs_doc].
+    rewrite Hdocstrip. unfold init_rstate. cbn [bind rs_params rs_returns rs_cur rs_doc].
+    unfold blocks. rewrite map_app, fold_outcome_app, <- all_lines_blocks.
+    fold (step true edd).
+    rewrite (run_entries true edd es sdoc [] None (None, empty_param) Hoks).
+    2:{ rewrite Ees. cbn [names_ok]. split; [reflexivity|].
+        apply (names_ok_of_nodup true edd).
+        - intros e He. apply Hoks. rewrite Ees. right. exact He.
+        - destruct (Hoks e1) as [[_ Hb] _]; [rewrite Ees; left; reflexivity|exact Hb].
+        - rewrite Ees in Hnd. exact Hnd. }
+    cbn [bind]. rewrite Hrrun by reflexivity. cbn [bind rs_doc rs_params rs_returns rs_cur].
+    (* the final flush *)
+    rewrite Ees. cbn [run_spec]. change (flushed [] (None, empty_param)) with (@nil (str * param)).
+    destruct (final_params es1 [] (e_name e1) (e_mid e1)) as [nl' [pl [H1 [H2 H3]]]].
+    { cbn [map app]. rewrite Ees in Hnd. exact Hnd. }
+    rewrite H1. cbn [fst snd].
+    assert (Hlast : exists e, In e es /\ nl' = e_name e /\ pl = e_mid e).
+    { destruct H3 as [[E1 [E2 E3]]|[e [He [E2 E3]]]].
+      - exists e1. rewrite Ees. split; [left; reflexivity|]. split; assumption.
+      - exists e. rewrite Ees. split; [right; exact He|]. split; assumption. }
+    destruct Hlast as [el [Hel [Enl Epl]]]. subst nl' pl.
+    destruct (Hoks el Hel) as [_ [[_ [[mi [HI HS]] _]] _]].
+    rewrite HI. cbn [bind]. rewrite HS. cbn [bind fst snd]. unfold maybe_remove. rewrite andb_false_r. cbn [bind].
+    rewrite H2. reflexivity. }
+  (* the whole parse *)
+  assert (Hparse : parse_rest (docpart ++ concat (map blk blocks)) false true true edd
+                   = Ok (ir_of_parts sdoc (map (fun e => (e_name e, e_fin e)) es) orp)).
+  { unfold parse_rest. rewrite Hscan, Hphase. cbn [bind rs_params rs_returns rs_doc].
+    rewrite (map_params_entries edd es).
+    2:{ intros e He. destruct (Hoks e He) as [_ [[_ [_ H]] _]]. exact H. }
+    cbn [bind]. rewrite Hrpost. cbn [bind post_remove fst snd]. reflexivity. }
+  exists (docpart ++ concat (map blk blocks)), (ir_of_parts sdoc (map (fun e => (e_name e, e_fin e)) es) orp).
+  split; [exact Htext_eq|].
+  assert (Hstyle : detect_style (Some (docpart ++ concat (map blk blocks))) = Rest).
+  { destruct Hblocks_ne as [b0 Hb0].
+    apply (detect_style_rest _ (fst b0)).
+    - rewrite <- rest_scan_tokens_eq. apply (Hblocks_good b0 Hb0).
+    - apply contains_block_token. exact Hb0. }
+  split; [exact Hstyle|]. split.
+  - rewrite parse_dot_rest; [exact Hparse|unfold docpart; discriminate|exact Hstyle].
+  - unfold same_interface, same_summary, ir_of_parts. cbn [ir_doc ir_params ir_returns fld_opt opt_eqb].
+    rewrite str_eqb_refl. cbn [andb]. rewrite map_map. cbn [fst snd].
+    rewrite (entries_same _ _ _ _ Hes). cbn [andb]. exact Hrsame.
+Qed.
+
+(* ------------------------------------------------------------------ *)
+(* the executable form, refutation of the full statement, witnesses    *)
+(* ------------------------------------------------------------------ *)
+
+Lemma C01_rest_at_b_complete : forall edd i, C01_rest_at edd i -> C01_rest_at_b edd i = true.
+Proof.
+  intros edd i [text [i' [H1 [H2 [H3 H4]]]]]. unfold C01_rest_at_b. rewrite H1, H2, H3, H4. reflexivity.
+Qed.
+
+Lemma C01_rest_at_b_sound : forall edd i, C01_rest_at_b edd i = true -> C01_rest_at edd i.
+Proof.
+  intros edd i H. unfold C01_rest_at_b in H.
+  destruct (rest_text_of i) as [text|e] eqn:E1; [|discriminate].
+  apply andb_true_iff in H. destruct H as [H2 H3].
+  destruct (detect_style (Some text)) eqn:E2; try discriminate.
+  destruct (parse_dot_docstring ng_unmodelled text false true edd) as [i'|e] eqn:E3; [|discriminate].
+  exists text, i'. repeat split; assumption.
+Qed.
+
+(* the property over the whole domain, ReST style *)
+Definition C01_rest_statement : Prop :=
+  forall edd i, in_domain_C01 i = true -> C01_rest_at edd i.
+
+Definition mk_ir (doc : str) (ps : list (str * gparam)) (r : fld gparam) : ir :=
+  mkIR FNone (Has (L "static")) (Has doc) ps r None.
+
+Definition gp (doc typ : option str) (dflt : option pyval) : gparam :=
+  mkG (fld_of_opt doc) (fld_of_opt typ) (option_map DV dflt).
+
+(* a docstring that documents only a return value: the parser raises AttributeError *)
+Definition w_return_only : ir :=
+  mk_ir (L "Summary.") [] (Has (gp (Some (L "the result.")) (Some (L "int")) None)).
+
+Lemma w_return_only_raises :
+  (do text <- rest_text_of w_return_only; parse_dot_docstring ng_unmodelled text false true true)
+  = Err AttributeError.
+Proof. vm_compute. reflexivity. Qed.
+
+Theorem C01_rest_refuted_lemma : ~ C01_rest_statement.
+Proof.
+  intros H.
+  assert (Hd : in_domain_C01 w_return_only = true) by (vm_compute; reflexivity).
+  specialize (H true w_return_only Hd).
+  apply C01_rest_at_b_complete in H. vm_compute in H. discriminate.
+Qed.
+
+(* one witness per finding class: in the domain, in the class, and the property fails in the model *)
+Definition witness_ok (edd : bool) (k : c01_class) (i : ir) : bool :=
+  in_domain_C01 i
+  && (match finding_class_C01_rest false edd i with
+      | Some k' => str_eqb (c01_class_name k') (c01_class_name k)
+      | None => false end)
+  && negb (C01_rest_at_b edd i).
+
+Definition one (n : str) (g : gparam) : ir := mk_ir (L "Summary.") [(n, g)] FNone.
+
+Definition class_witnesses : list (bool * c01_class * ir) :=
+  [ (true, K01_no_entries, mk_ir (L "Summary.") [] FNone);
+    (true, K01_return_only, w_return_only);
+    (true, K01_entry_vanishes,
+     mk_ir (L "Summary.") [(L "a", gp (Some (L "first.")) (Some (L "int")) None); (L "b", gp None None None)] FNone);
+    (true, K01_type_only_default_lost, one (L "lr") (gp None (Some (L "float")) (Some (VFloat (L "0.5")))));
+    (true, K01_prose_only_type_invented, one (L "n") (gp (Some (L "count.")) None (Some (VInt 5))));
+    (true, K01_summary_shape, mk_ir (L " Summary.") [(L "a", gp (Some (L "first.")) (Some (L "int")) None)] FNone);
+    (true, K01_prose_shape, one (L "a") (gp (Some (L "first line." ++ [nl] ++ L "second line.")) (Some (L "int")) None));
+    (true, K01_prose_optional, one (L "a") (gp (Some (L "Optional count.")) (Some (L "int")) None));
+    (true, K01_prose_announces, one (L "a") (gp (Some (L "count; default: 5 items.")) (Some (L "int")) None));
+    (false, K01_default K_prose_no_terminal, one (L "a") (gp (Some (L "count")) (Some (L "int")) (Some (VInt 5))));
+    (true, K01_default K_prose_mentions_defaults, one (L "a") (gp (Some (L "the defaults.")) (Some (L "int")) (Some (VInt 5))));
+    (true, K01_default K_scan_cut, one (L "a") (gp (Some (L "name.")) (Some (L "str")) (Some (VStr (L "a.b")))));
+    (true, K01_default K_strip_changes,
+     one (L "a") (gp (Some (L "items.")) (Some (L "List[int]")) (Some (VStr (L "```[1, 2]```")))));
+    (true, K01_default K_typed_literal, one (L "a") (gp (Some (L "rate.")) (Some (L "float")) (Some (VFloat (L "inf")))));
+    (true, K01_default K_str_reads_as_other, one (L "a") (gp (Some (L "x.")) None (Some (VStr (L "5")))));
+    (true, K01_default_text, one (L "a") (gp (Some (L "x.")) (Some (L "Optional[str]")) (Some (VStr []))));
+    (true, K01_default_settle, one (L "a") (gp (Some (L "x.")) (Some (L "str")) (Some (VStr (L "```x```")))));
+    (true, K01_kwargs_shape, one (L "kwargs") (gp (Some (L "extra.")) (Some (L "dict")) None));
+    (true, K01_return_default,
+     mk_ir (L "Summary.") [(L "a", gp (Some (L "first.")) (Some (L "int")) None)]
+           (Has (gp (Some (L "the result.")) (Some (L "int")) (Some (VStr (L "```5```"))))))
+  ].
+
+Lemma class_witnesses_ok :
+  forallb (fun w => witness_ok (fst (fst w)) (snd (fst w)) (snd w)) class_witnesses = true.
+Proof. vm_compute. reflexivity. Qed.
+
+(* non-vacuity: two parameters with defaults and a return entry, inside the guard, both parse modes *)
+Definition w_in_guard : ir :=
+  mk_ir (L "Summary.")
+        [(L "a", gp (Some (L "first.")) (Some (L "int")) (Some (VInt 5)));
+         (L "b", gp (Some (L "name.")) (Some (L "str")) (Some (VStr (L "adam"))));
+         (L "c", gp (Some (L "maybe.")) (Some (L "Optional[int]")) (Some VNone));
+         (L "kwargs", gp (Some (L "extra.")) (Some (L "Optional[dict]")) (Some VNone))]
+        (Has (gp (Some (L "ok.")) (Some (L "bool")) None)).
+
+Lemma C01_rest_nonvacuous_lemma :
+  guard_C01_rest true w_in_guard = true /\ guard_C01_rest false w_in_guard = true.
+Proof. split; vm_compute; reflexivity. Qed.
